@@ -239,7 +239,7 @@ def hosts_namespace():
     hosts = os.path.join(vlib.CACHE, "lockhost.hosts")
     try: base = open("/etc/hosts").read()
     except OSError: base = "127.0.0.1 localhost\n"
-    open(hosts, "w").write(base.rstrip("\n") + "\n127.0.0.1 lockhost\n127.0.0.2 lockhost\n")
+    open(hosts, "w").write(base.rstrip("\n") + "\n127.0.0.1 lockhost\n127.0.0.2 lockhost\n127.0.0.3 duphost\n127.0.0.3 duphost\n")
     prefix = ("unshare", "-m", "sh", "-c", 'mount --bind "$0" /etc/hosts && exec "$@"', hosts)
     probe = ("import socket,sys\nr=sorted(set(i[4][0] for i in socket.getaddrinfo('lockhost',0,type=socket.SOCK_STREAM)))\n"
              "for a in r:\n s=socket.socket(); s.bind((a,0)); s.close()\nprint(' '.join(r))")
@@ -256,6 +256,7 @@ def multi_address_round(ctx, rng):
     name, addrs, prefix = found
     ctx.count("multi_address_host_" + ("native" if not prefix else "by_hosts_namespace"))
     partial_hold_round(ctx, rng, name, addrs, prefix)
+    if prefix: duplicate_address_round(ctx, rng, prefix)
     rr = runscen.RunRepo(ctx, CFG, commands=["build"])
     try:
         full = json.load(open(os.path.join(rr.repo, "Monorail.json")))
@@ -321,6 +322,29 @@ def partial_hold_round(ctx, rng, name, addrs, prefix):
                                "B": {"api": b_api, "rc": b.returncode, "acquired": b_acq}})
         finally:
             rr.close()
+
+def duplicate_address_round(ctx, rng, prefix):
+    """A lock host whose one address the resolver lists twice (the name entered twice in the hosts file): with nobody else alive an
+    invocation acquires the lock at once; while it holds it, a contender is refused."""
+    rr = runscen.RunRepo(ctx, CFG, commands=["build"])
+    try:
+        set_lock_host(rr, "duphost")
+        a_api = rng.choice(["run", "checkpoint_update"])
+        a = spawn(rr, a_api, "after_lock_%s=sleep:1200" % a_api, prefix=prefix)
+        time.sleep(0.5)
+        b = spawn(rr, "checkpoint_update", prefix=prefix)
+        try: bo, be = b.communicate(timeout=30)
+        except subprocess.TimeoutExpired: b.kill(); bo, be = b.communicate()
+        try: ao, ae = a.communicate(timeout=60)
+        except subprocess.TimeoutExpired: a.kill(); ao, ae = a.communicate()
+        ok = a.returncode == 0 and not lock_error(ae) and b.returncode != 0 and lock_error(be)
+        ctx.count("duplicate_address_round")
+        ctx.record({"multi_address_host": "duphost", "duplicate_address": True, "a": a_api}, True, ok, ok, True,
+                   sample={"lock_host": "duphost (127.0.0.3 listed twice)", "first": [a_api, a.returncode], "contender_rc": b.returncode},
+                   detail={"what": "first invocation must acquire (nobody else alive), the contender must be refused", "first": {"api": a_api, "rc": a.returncode, "lock_error": lock_error(ae), "stderr": ae.decode("utf-8", "replace")[-200:]},
+                           "contender": {"rc": b.returncode, "lock_error": lock_error(be)}})
+    finally:
+        rr.close()
 
 def simultaneous_round(ctx, rng, n):
     rr = runscen.RunRepo(ctx, CFG, commands=["build"])
